@@ -33,6 +33,9 @@ def run_one(args):
         except Exception as e:
             err = f"{type(e).__name__}: {str(e)[:150]}"
         fails = [o for o in (ctx.failures() if ctx else []) if core.finding_key(p, o) not in known]
+        und = [f"{o.rule}:{o.construct.split('::')[-1][:30]}" for o in (ctx.obligations if ctx else []) if getattr(o, "undecided", False)]
+        if und:
+            res.setdefault("_undecided", {})[p] = und
         if fails or err:
             res[p] = {"rules": sorted({o.rule for o in fails}), "err": err, "first": [f"{o.rule} {o.construct[:80]} :: {o.what[:140]}" for o in fails[:4]]}
     return kind, name, res, None
@@ -48,11 +51,13 @@ def main():
     if which in ("refactors", "all"):
         jobs += [("refactors", d.name, str(d / "refactor.diff")) for d in sorted((VERIF / "refactors").iterdir()) if (d / "refactor.diff").exists() and (not ids or d.name in ids)]
     bad_seed = bad_ref = 0
+    n_und = [0]
     with ProcessPoolExecutor(14) as ex:
         for kind, name, res, note in ex.map(run_one, jobs):
             if res is None:
                 print(f"{kind:9} {name}: {note}"); continue
             if kind == "seeded":
+                res.pop("_undecided", None)
                 prop = name.split("-")[0]
                 own = prop in res and res[prop]["rules"]
                 errs = {p: v["err"] for p, v in res.items() if v["err"] and not v["rules"]}
@@ -60,6 +65,10 @@ def main():
                 if not own or errs or verbose:
                     print(f"seeded    {name}: " + ("" if own else "NOT CAUGHT by own check; ") + str({p: v['rules'] for p, v in res.items() if v['rules']}) + (f"  EXIT2 {errs}" if errs else ""))
             else:
+                und = res.pop("_undecided", {})
+                if und and verbose:
+                    print(f"refactor  {name}: undecided {und}")
+                n_und[0] += sum(len(v) for v in und.values())
                 if res:
                     bad_ref += 1
                     print(f"refactor  {name}: FALSE ALARM {{{', '.join(p + ':' + ','.join(v['rules'] or ['EXIT2']) for p, v in res.items())}}}")
@@ -70,7 +79,7 @@ def main():
                 elif verbose:
                     print(f"refactor  {name}: silent")
     ns = sum(1 for j in jobs if j[0] == "seeded"); nr = sum(1 for j in jobs if j[0] == "refactors")
-    print(f"seeded: {ns - bad_seed}/{ns} caught by their own check;  refactors: {nr - bad_ref}/{nr} silent")
+    print(f"seeded: {ns - bad_seed}/{ns} caught by their own check;  refactors: {nr - bad_ref}/{nr} silent ({n_und[0]} obligations undecided on the refactored trees)")
 
 if __name__ == "__main__":
     main()
